@@ -904,7 +904,7 @@ def diff_model_case(t1, t2, cfg, dist):
     from harness import diffcommon as D
     zip_ = bool(cfg.get("zip_ordered_iterables", False))
     kw = {k: v for k, v in cfg.items() if k not in ("view",)}
-    tree = DeepDiff(copy.deepcopy(t1), copy.deepcopy(t2), view="tree", **kw)
+    tree = DeepDiff(t1, t2, view="tree", **kw)     # the same objects: set iteration order must be the one emitted for t1 / t2
     inc, guard = [], True
     for lv in tree.get("type_changes", []):
         a, b = lv.t1, lv.t2
